@@ -1,7 +1,7 @@
 (* Evaluation of the C08 model on harness-written cases (correspondence check). *)
 From Coq Require Import List NArith String Bool.
 From V.Base Require Import Hex BigEndian.
-From V.C08 Require Import Model.
+From V.C08 Require Import Model Typed.
 Import ListNotations.
 Local Open Scope N_scope.
 
@@ -46,3 +46,15 @@ Definition check (c : string * dobs * sobs * cobs) : bool :=
   let '(h, d, s, n) := c in
   let b := unhex h in
   chk_dec b d && chk_split b s && chk_count b n && chk_canon b.
+
+(* typed layer: implementation accepted with value [o] / rejected, vs decode_typed; plus the model's own
+   canonicity instance on this input *)
+Definition check_typed (c : ty * string * option value) : bool :=
+  let '(t, h, o) := c in
+  let b := unhex h in
+  match decode_typed t b, o with
+  | Some v, Some v' => value_eqb v v' &&
+                       match encode_typed t v with Some b' => bytes_eqb b' b | None => false end
+  | None, None => true
+  | _, _ => false
+  end.
